@@ -152,6 +152,12 @@ class FifoOracle(object):
                         % (k, info.text, len(q) - own_, q[0][1][0]),
                         expected=q[0][1][0], observed=info.text)
                 blanks = 0
+            elif k == "other" and info.text.startswith("Binary files ") and info.text.endswith(" differ") and q \
+                    and not any(self._is_empty(it) for it in q):
+                # a `Binary files x and y differ` line passed through as it is opens the next file's section
+                raise ViolationError(
+                    "header-before-lines", "the next file's line %r is written while %d earlier hunk line(s) are still "
+                    "pending (first: %r)" % (info.text, len(q), q[0][1][0]), expected=q[0][1][0], observed=info.text)
             elif k == "other" and info.text.startswith("commit " + producers.H40A.decode()):
                 # a commit line passed through unstyled (commit-style raw) is still the next commit's header
                 while q and blanks > 0 and self._is_empty(q[0]):
@@ -602,7 +608,7 @@ def plan(tier):
                 ("A", "diffu-exact", [b"x", b"-- y"], 3, 2),
                 ("A", "bare-exact", [b"x", b"-- y"], 3, 2),
                 ("A", "prose-combined", [b"x", b"B"], 3, 1),
-                ("B", 2, ["modified", "mode", "rename_change"], None, "diffu")]
+                ("B", 2, ["modified", "mode", "rename_change", "binary"], None, "diffu")]
     else:
         specs = [("A", "unified", CONTENTS_QUICK, 4, 1),
                  ("B", 2, None, None, "git")]
@@ -615,7 +621,7 @@ def plan(tier):
                 ("A", "bare-exact", [b"x", b"-- y", b"++ y"], 4, 2),
                 ("A", "prose-combined", CONTENTS_QUICK[:3], 3, 1),
                 ("B", 3, None, ["ctx", "minus", "minusplus"], "git"),
-                ("B", 2, ["modified"], None, "diffu")]
+                ("B", 2, ["modified", "binary"], None, "diffu")]
     for label, ov, k in configs:
         for spec in specs:
             tasks.append((spec, label, ov))
